@@ -157,6 +157,30 @@ def main():
         else:
             same += 1
         shutil.rmtree(wd, ignore_errors=True)
+    # the repository's own sample data (106 molecules against one contig), all three files of mode 'all'
+    data = os.path.join(REPO, "data", "NA12878_BSPQI")
+    if os.path.isdir(data) and os.environ.get("COMASIM_STUB_SKIP_SAMPLE") != "1":
+        wd = os.path.join(tmp, "sample")
+        os.makedirs(wd)
+        shutil.copy(os.path.join(data, "alignmolvref_contig24_r.cmap"), os.path.join(wd, "r_base.cmap"))
+        shutil.copy(os.path.join(data, "alignmolvref_contig24_q.cmap"), os.path.join(wd, "q_base.cmap"))
+        case = {"config": {}, "filesets": {}}
+        ex = {"mode": "all", "cpus": 5, "profile": "jitter", "sched_seed": seed, "pb": True}
+        out = world.run_execution(case, ex, wd)
+        sim_files = dict(out["late_files"])
+        world._clean_outputs(wd)
+        p = subprocess.run([sys.executable, "-c", "import sys; sys.path.insert(0, %r); from src.program import main; main()" % REPO]
+                           + world.build_argv(case, ex), cwd=wd, capture_output=True, text=True, timeout=1200)
+        real_files = {f: open(os.path.join(wd, f), newline="").read() for f in sorted(os.listdir(wd))
+                      if f.startswith("out") and f.endswith(".xmap")}
+
+        def norm2(files):
+            return {k: "\n".join(ln for ln in v.split("\n") if not ln.startswith(("# hostname", "# coma "))) for k, v in files.items()}
+        ok = p.returncode == 0 and out["status"] == "ok" and norm2(real_files) == norm2(sim_files)
+        nrec = sum(sum(1 for ln in v.split("\n") if ln and not ln.startswith("#")) for v in sim_files.values())
+        print(f"sample data (mode all, -c 5): {'byte-identical' if ok else 'MISMATCH'} between the real pool and SimPool, "
+              f"{len(sim_files)} files, {nrec} records")
+        bad += not ok
     shutil.rmtree(tmp, ignore_errors=True)
     print(f"stub fidelity: {same}/{n} worlds byte-identical between the real pathos pool and SimPool; {bad} mismatches")
     return 2 if bad else 0
